@@ -74,7 +74,7 @@ class Documenter(object):
         """The :code:`.. module::` directive that defines the module's name."""
 
         # We need a string stream of some kind, FileStream is easiest
-        self.input_stream: InputStream = FileStream(file, encoding="utf-8")
+        self.input_stream: InputStream = FileStream(file, encoding="utf-8-sig")
         """The string stream used to read the CMake file."""
 
         # Convert those strings into tokens and build a stream from those
